@@ -1,19 +1,120 @@
 """C01 - unmarshalled code objects equal what the producing CPython loads."""
+import os
+import re
+
+from hypothesis import strategies as st
+
 from vf import canon as cn
+from vf import progdiff as pd
+from vf import refworker as rw
 from vf.props.progbase import ProgProp
+from vf.run import Result
+
+# corpus directories -> the interpreter whose marshal reads that layout (identical code layout 2.3-2.7 and
+# 3.0-3.7; PyPy writes the CPython layout of its language level)
+COUSIN = {"2.3": "2.7", "2.4": "2.7", "2.5": "2.7", "2.6": "2.7", "2.7": "2.7", "2.7pypy": "2.7",
+          "3.0": "3.7", "3.1": "3.7", "3.2": "3.7", "3.3": "3.7", "3.4": "3.7", "3.5": "3.7", "3.6": "3.6", "3.7": "3.7",
+          "pypy35": "3.7", "pypy36": "3.7", "pypy37": "3.7", "3.8": "3.8", "pypy38": "3.8", "3.9": "3.9", "3.10": "3.10",
+          "3.11": "3.11", "3.12": "3.12"}
 
 
 class C01(ProgProp):
     id = "C01"
     aspects = ("tree",)
     owns_loader_errors = True
+    use_corpus = True
     rule = ("case = (bytecode version, program): G-PROG grammar programs and sampled stdlib files compiled and "
-            "marshalled by the producing CPython (2.7, 3.6-3.13); oracle = that CPython's canonical code tree "
-            "(every field, constants by kind and value) vs xdis's portable unmarshaller on the same bytes, plus "
-            "'payload consumed exactly'; non-trivial = tree has >= 1 nested code object and >= 3 constant kinds; "
+            "marshalled by the producing CPython (2.7, 3.6-3.13), optionally followed by drawn trailing bytes; plus "
+            "every historical corpus file of 2.3-3.12 / PyPy judged through the interpreter whose marshal reads that "
+            "code layout (2.7 for 2.3-2.7, 3.7 for 3.0-3.7 and PyPy 3.5-3.7, own interpreter from 3.8); oracle = that "
+            "CPython's canonical code tree (every field, constants by kind and value) vs xdis's portable unmarshaller "
+            "on the same bytes, plus 'payload consumed exactly' (file position after load_code == end of payload, with "
+            "or without trailing bytes); non-trivial = tree has >= 1 nested code object and >= 3 constant kinds; "
             "distinct = (version, canonical tree)")
-    assumptions = ["the producing CPython's marshal.loads is ground truth",
-                   "py2 str that happens to be UTF-8 may come back as text (same bytes); int/long are one kind"]
+    assumptions = ["the producing (or layout-identical) CPython's marshal.loads is ground truth",
+                   "py2 str that happens to be UTF-8 may come back as text (same bytes); int/long are one kind",
+                   "1.0-2.2 corpus files have no reference interpreter: they are only decoded structurally (C09, C12)"]
+
+    def strategy(self, ctx):
+        base = super().strategy(ctx)
+        return st.tuples(base, st.one_of(st.just(""), st.binary(max_size=12).map(rw.hx),
+                                         st.sampled_from(["4e", "00", "630000", "72000000"]))).map(
+            lambda p: dict(p[0], trail=p[1]))
+
+    def fixed_cases(self, ctx):
+        for rel in pd.corpus_files():
+            d = rel.split("/")[0].replace("bytecode_", "")
+            if d in COUSIN:
+                yield {"k": "corpus", "path": rel}
+
+    def judge(self, case, ctx):
+        if case.get("k") == "corpus":
+            return self.judge_corpus(case, ctx)
+        res = super().judge(case, ctx)
+        trail = case.get("trail")
+        if trail and not res.reject and not res.failures and case.get("k") in ("prog", "stdlib"):
+            # the payload followed by other bytes: load_code must stop exactly at its end
+            ref = self.reference(case, ctx)
+            data = rw.unhx(ref["header"]) + rw.unhx(ref["payload"]) + rw.unhx(trail)
+            x, err = pd.xdis_dump(data, 0)
+            res.classes.append("trailing-bytes")
+            if err:
+                res.fail("C01|%s|trailing-bytes|loader-raised|%s" % (case["v"], err[0]), "with %d trailing bytes load raised %s: %s" % (
+                    len(trail) // 2, err[0], err[1]))
+            elif x["consumed"] != len(rw.unhx(ref["payload"])):
+                res.fail("C01|%s|trailing-bytes|consumed" % case["v"], "payload is %d bytes, %d trailing bytes follow; load_code consumed %d" % (
+                    len(rw.unhx(ref["payload"])), len(trail) // 2, x["consumed"]))
+            else:
+                d = cn.diff(ref["tree"], x["tree"])
+                if d:
+                    res.fail("C01|%s|trailing-bytes|tree" % case["v"], "tree differs when trailing bytes follow: %s" % (d,))
+        return res
+
+    def judge_corpus(self, case, ctx):
+        res = Result()
+        rel = case.get("path", "")
+        d = rel.split("/")[0].replace("bytecode_", "")
+        path = os.path.join(pd.CORPUS_DIR, rel)
+        if d not in COUSIN or not os.path.exists(path):
+            res.reject = "malformed-case"
+            return res
+        if os.path.getsize(path) > (60000 if ctx.tier == "quick" else 10 ** 6):
+            res.reject = "corpus-file-too-big-for-tier"
+            return res
+        data = open(path, "rb").read()
+        m = re.match(r"(?:pypy)?(\d)\.?(\d+)", d)
+        vt = (int(m.group(1)), int(m.group(2)))
+        hl = 8 if vt < (3, 3) else (12 if vt < (3, 7) else 16)
+        if d == "3.2pypy" or data[0:1] == b"0":
+            res.reject = "pypy3.2-header"
+            return res
+        cousin = COUSIN[d]
+        ref = ctx.pool.ref(cousin).call_raw("loads", payload=rw.hx(data[hl:]))
+        if not ref["ok"] or "reject" in ref["r"]:
+            res.reject = "cousin-interpreter-cannot-load:%s" % d
+            return res
+        ref = ref["r"]
+        x, err = pd.xdis_dump(data, 0)
+        res.classes = ["corpus:" + d, "reference:" + cousin]
+        res.sample = {"corpus_file": rel, "reference_interpreter": cousin}
+        if err:
+            res.fail("C01|corpus|%s|loader-raised|%s|%s" % (d, err[0], err[2]), "%s: load raised %s: %s" % (rel, err[0], err[1]))
+            return res
+        rt, xt = ref["tree"], x["tree"]
+        if "pypy" in d:
+            # CPython's code constructor sets CO_NOFREE (0x40) itself when there are no cell/free variables;
+            # PyPy does not store that bit, and xdis rightly reports what is stored
+            rt, xt = _mask_nofree(rt), _mask_nofree(xt)
+        diff = cn.diff(rt, xt)
+        if diff:
+            res.fail("C01|corpus|%s|field|%s|exp=%s|got=%s" % (d, cn.field_of(diff[0]) or "const", pd.kshort(diff[1]), pd.kshort(diff[2])),
+                     "%s: code tree differs at %s: CPython %s %s, xdis %s" % (rel, diff[0], cousin, diff[1], diff[2]))
+        if x.get("consumed") != x.get("payload_len"):
+            res.fail("C01|corpus|%s|consumed" % d, "%s: payload %s bytes, consumed %s" % (rel, x.get("payload_len"), x.get("consumed")))
+        kinds = cn.const_kinds(ref["tree"])
+        res.nontrivial = cn.count_codes(ref["tree"]) >= 2 and len(kinds) >= 3
+        res.key = [rel]
+        return res
 
     def classify(self, case, ref, x, c, res):
         kinds = cn.const_kinds(ref["tree"])
@@ -23,6 +124,18 @@ class C01(ProgProp):
         res.classes.append("nested-code" if ncode >= 2 else "single-code")
         for k in sorted(kinds):
             res.classes.append("const:" + k)
+
+
+def _mask_nofree(t):
+    k = t[0] if isinstance(t, list) and t else None
+    if k == "C":
+        d = dict((f, _mask_nofree(v)) for f, v in t[1].items())
+        if "co_flags" in d and d["co_flags"][0] == "i":
+            d["co_flags"] = ["i", str(int(d["co_flags"][1]) & ~0x40)]
+        return ["C", d]
+    if k in ("T", "L", "S", "Z"):
+        return [k, [_mask_nofree(v) for v in t[1]]]
+    return t
 
 
 PROP = C01()
